@@ -22,7 +22,14 @@ NOT_DECIDED = []
 def tasks(tier):
     return ([S.FindScpTask("C20/", table=t) for t in S.find_scp_tables(Repo())] + [S.WrapHandlerTask("C20/"), S.GetMoveScpTask("get"), S.GetMoveScpTask("move")]
             + [S.SingleScpTask(w) for w in S.SINGLE] + [S.RelevantPatientTask()]
-            + [S.DispatchTask(m, c) for m, c in S.dispatcher_classes(Repo())] + [AS.ServeTask()])
+            + [S.DispatchTask(m, c) for m, c in S.dispatcher_classes(Repo())] + [AS.ServeTask(), _send_msg()])
+
+
+def _send_msg():
+    # every response leaves through DIMSEServiceProvider.send_msg: a response primitive (Message ID Being Responded To present,
+    # 0 included) must be encoded as the RESPONSE message of its type, or the request never gets its final response
+    from contracts.dimse_frag import SendMsgTask
+    return SendMsgTask("C20/")
 
 
 def replay(rec):
